@@ -33,6 +33,7 @@ def apply(name):
         "partition_no_cancel": lambda: mutate(c.partition, "update", "self._callbacks[key].cancel()", "pass"),
         "map_drop_result": lambda: mutate(c.map, "update", "return self._emit(result, metadata=metadata)", "self._emit(result, metadata=metadata)"),
         "no_inherit_loop": lambda: mutate(c.Stream, "_set_loop", "self.loop = upstream.loop", "pass"),
+        "disconnect_one_sided": lambda: mutate(c.Stream, "disconnect", "downstream._remove_upstream(self)", "pass"),
         "source_start_always": lambda: mutate(s.Source, "start", "if self.stopped:", "if True:"),
     }
     if name == "corrupt_log":
